@@ -37,9 +37,14 @@ PARTIAL = [
     "record is the one the model of trace_ttndo / ttndo_ttno_expectation_value produces (trace_graph, ttndo_ttno_graph) "
     "evaluates to sum_{a,b} root[a,b] * sum_phys K_a * B_b (resp. the sandwich of the dense operator, inputs on the ket "
     "copy, outputs on the bra copy), and with the identity root tensor and the padded root bond to sum_phys K_0 * B_0 for "
-    "every root bond dimension >= 1.  NOT proved: (a) that the library's own sequence of tensordot calls is such a "
-    "program over the node tensors (the provenance layer `Built` of C04 is not lifted to the TTNDO routines; tied to the "
-    "code by the `trace` / `ttno` record comparison and, on integer tensors, by the Lean model evaluating its own record "
+    "every root bond dimension >= 1.  Provenance (a) is now PROVED for the model: trace_loop_value / "
+    "ttndo_ttno_loop_value (+ _padded_root) show that the result of the model's own sequence of tensordot calls (loop, "
+    "_contract_ttno_root / _single_site_contraction, _contract_final_block: `Built`, one lemma per model function) is "
+    "built from exactly the root tensor and the node tensors, and that EVERY expression it is built from is such a "
+    "program and evaluates to the dense value with the canonical dense vectors / operator - for all trees, semirings, "
+    "dimensions and tensor values reading only their own legs.  NOT proved: that the LIBRARY performs the model's calls "
+    "(tied to the code by the `trace` / `ttno` record comparison and, on integer tensors, by the Lean model evaluating its "
+    "own record "
     "on the TTNDO's tensors: `model_value`); (b) the hypothesis `PaddedRoot` (dense vectors vanish off index 0 of the root "
     "bond) is proved from the padded root TENSORS (padded_root_of_tensors); that the tensors from_ttns builds are padded "
     "that way is padded_root_index for the model of numpy.pad plus the oracle on the real tensors; (c) that the bra tensors "
